@@ -74,128 +74,3 @@ Example C09_token_examples :
   length (spec_tokens [x61; x20; x62; x20; x20]) = 3%nat /\ length (spec_tokens [x20; x61; x20; x62]) = 3%nat /\
   length (spec_tokens [x61; x20; x20; x62]) = 3%nat /\ length (spec_tokens []) = 0%nat.
 Proof. repeat split. Qed.
-
-(* ---- the tie to the code: utf8_nfkd_lazy (dependency.h) as TRANSLATED from /repo's current source on
-   this run (Gen/CFuns.v) computes what the mirror StrDefs.nfkd_lazy computes - for EVERY C string,
-   EVERY injected normaliser D (its result taken as given), EVERY previous content of the destination
-   buffer of POLYSEED_STR_SIZE cells: either D's result, or the copied prefix followed by the
-   terminator with every other cell untouched (so no cell at or beyond POLYSEED_STR_SIZE is written) *)
-Theorem C09_code_tie_lazy : forall sgn (nf : transform) (D : list Z -> list Z * Z) s norm0 fuel,
-  no_nul s -> length norm0 = N.to_nat STR_SIZE -> (length s + 2 <= fuel)%nat ->
-  (D (zs s) = (zs (fst (nf s)), Z.of_N (snd (nf s)))) ->
-  CFuns.utf8_nfkd_lazy fuel sgn D (zs s) norm0 =
-    let '(content, size, called) := nfkd_lazy nf s in
-    if called then Some (zs content, Z.of_N size)
-    else Some (zs content ++ 0%Z :: skipn (S (length content)) norm0, Z.of_N size).
-Proof. exact tie_nfkd_lazy_mirror. Qed.
-Print Assumptions C09_code_tie_lazy.
-
-(* ---- the tie to the code: the language loop of lang.c as TRANSLATED from /repo's current source on this
-   run (Gen/CFuns.v: both loops fuelled; break, continue and the early return for MULT_LANG as flags of
-   the loop state; lang_search an outside function `ext` that answers as the mirror search does) gives,
-   for EVERY sixteen tokens: OK with the indices of the one language that recognises them all (and its
-   registry position through lang_out unless that is NULL), ERR_LANG with nothing written when none
-   does, ERR_MULT_LANG as soon as a second one does - exactly LangDefs.phrase_decode *)
-Theorem C09_code_tie_auto : forall sgn ext ws io0 lo lo0 fuel,
-  (forall li L w, nth_error langs li = Some L -> ext (Z.of_nat li) (zs w) = enc (lang_search sgn L w)) ->
-  length ws = 16%nat -> length io0 = 16%nat -> (18 <= fuel)%nat ->
-  Res io0 lo lo0 (phrase_decode sgn langs ws) (CFuns.polyseed_phrase_decode fuel ext (map zs ws) io0 lo lo0).
-Proof. exact tie_phrase_decode_langs. Qed.
-Print Assumptions C09_code_tie_auto.
-
-Theorem C09_code_tie_explicit : forall sgn ext li L ws io0 fuel,
-  (forall li L w, nth_error langs li = Some L -> ext (Z.of_nat li) (zs w) = enc (lang_search sgn L w)) ->
-  nth_error langs li = Some L -> length ws = 16%nat -> length io0 = 16%nat -> (18 <= fuel)%nat ->
-  exists io, CFuns.polyseed_phrase_decode_explicit fuel ext (map zs ws) (Z.of_nat li) io0 =
-    match decode_words sgn L ws with
-    | Some (Some js) => Some (map Z.of_N js, 0%Z)
-    | _ => Some (io, 2%Z)
-    end.
-Proof. exact tie_phrase_decode_explicit_langs. Qed.
-Print Assumptions C09_code_tie_explicit.
-
-(* ---- the tie to the code: src/polyseed.c as TRANSLATED on this run (Gen/CApi.v) ---- *)
-From Coq Require Import String.
-From PS Require Import Base GFDefs PackDefs StoreDefs MiscDefs StrDefs LangDefs ApiDefs GFProofs PackProofs StoreProofs CTieBase CTieLang CTiePhrase CTiePhraseEv CTieSplit CTieApi CTieDecode CTieEncode.
-From PS.Gen Require Import Consts PrivConsts Langs.
-From PS.Gen Require CFuns.
-From PS.Gen Require CApi.
-
-(* str_split as translated (offsets into the buffer, separators overwritten in place): the count returned and the tokens designated are the mirror's, for every NUL-free content *)
-Theorem C09_code_tie_split :
-  forall (fuel : nat) (tail : list Z),
-         tail = [] \/ (exists r : list Z, tail = 0%Z :: r) ->
-         forall (content : bytes) (words0 : list Z),
-         no_nul content ->
-         Datatypes.length words0 = 16%nat ->
-         (Datatypes.length content + 2 <= fuel)%nat ->
-         exists Bf' words' : list Z,
-           CApi.str_split fuel (zs content ++ tail) words0 =
-           Some (Bf', words', Z.of_nat (fst (str_split content))) /\
-           Datatypes.length words' = 16%nat /\ Q Bf' words' (snd (str_split content)).
-Proof. exact @tie_str_split. Qed.
-Print Assumptions C09_code_tie_split.
-
-(* polyseed_decode as translated against the mirror step *)
-Theorem C09_code_tie_api_decode :
-  forall (sgn : bool) (st : state) (fuel : nat) (D : list Z -> list Z * Z) (ext : Z -> list Z -> Z),
-         (forall (li : nat) (L : lang) (w : bytes),
-          nth_error langs li = Some L -> ext (Z.of_nat li) (zs w) = enc (lang_search sgn L w)) ->
-         (18 <= fuel)%nat ->
-         forall (str : bytes) (coin : N) (ok : bool) (lo lo0 gb gf : Z) (gs : list Z) (gc so0 : Z),
-         no_nul str ->
-         coin < 2048 ->
-         (Datatypes.length str + 2 <= fuel)%nat ->
-         D (zs str) = (zs (fst (dp_nfkd (st_deps st) str)), Z.of_N (snd (dp_nfkd (st_deps st) str))) ->
-         no_nul (fst (dp_nfkd (st_deps st) str)) ->
-         (Datatypes.length (fst (dp_nfkd (st_deps st) str)) + 2 <= fuel)%nat ->
-         let
-         '(st', out0, evs) := step sgn langs st (OpDecode str coin ok) in
-          exists (cevs : list CApi.cev) (lo' b f : Z) (s : list Z) (c so status : Z),
-            CApi.polyseed_decode fuel sgn D ext (alloc_ptr st ok) CFuns.polyseed_mul2_table
-              (Z.of_N (st_reserved st)) (zs str) (Z.of_N coin) lo lo0 gb gf gs gc so0 =
-            Some (cevs, lo', b, f, s, c, so, status) /\
-            evs_of (st_deps st) cevs = evs /\
-            (exists li : nat,
-               out0 =
-               OutStatus (Z.to_N status) (if (status =? 0)%Z then Some (st_next st) else None)
-                 (if (status =? 0)%Z then Some li else None) /\
-               (status = 0%Z -> (lo <> 0%Z -> lo' = Z.of_nat li) /\ (lo = 0%Z -> lo' = lo0))) /\
-            (if (status =? 0)%Z
-             then
-              so = ptr (st_next st) /\
-              (exists d : data, st_heap st' = (st_next st, d) :: st_heap st /\ (b, f, s, c) = zd d)
-             else so = so0 /\ st_heap st' = st_heap st).
-Proof. exact @tie_decode. Qed.
-Print Assumptions C09_code_tie_api_decode.
-
-(* polyseed_decode_explicit as translated against the mirror step *)
-Theorem C09_code_tie_api_decode_explicit :
-  forall (sgn : bool) (st : state) (fuel : nat) (D : list Z -> list Z * Z) (ext : Z -> list Z -> Z),
-         (forall (li : nat) (L : lang) (w : bytes),
-          nth_error langs li = Some L -> ext (Z.of_nat li) (zs w) = enc (lang_search sgn L w)) ->
-         (18 <= fuel)%nat ->
-         forall (str : bytes) (coin : N) (li : nat) (L : lang) (ok : bool) (gb gf : Z) 
-           (gs : list Z) (gc so0 : Z),
-         nth_error langs li = Some L ->
-         no_nul str ->
-         coin < 2048 ->
-         (Datatypes.length str + 2 <= fuel)%nat ->
-         D (zs str) = (zs (fst (dp_nfkd (st_deps st) str)), Z.of_N (snd (dp_nfkd (st_deps st) str))) ->
-         no_nul (fst (dp_nfkd (st_deps st) str)) ->
-         (Datatypes.length (fst (dp_nfkd (st_deps st) str)) + 2 <= fuel)%nat ->
-         let
-         '(st', out0, evs) := step sgn langs st (OpDecodeExplicit str coin li ok) in
-          exists (cevs : list CApi.cev) (b f : Z) (s : list Z) (c so status : Z),
-            CApi.polyseed_decode_explicit fuel sgn D ext (alloc_ptr st ok) CFuns.polyseed_mul2_table
-              (Z.of_N (st_reserved st)) (zs str) (Z.of_N coin) (Z.of_nat li) gb gf gs gc so0 =
-            Some (cevs, b, f, s, c, so, status) /\
-            evs_of (st_deps st) cevs = evs /\
-            out0 = OutStatus (Z.to_N status) (if (status =? 0)%Z then Some (st_next st) else None) None /\
-            (if (status =? 0)%Z
-             then
-              so = ptr (st_next st) /\
-              (exists d : data, st_heap st' = (st_next st, d) :: st_heap st /\ (b, f, s, c) = zd d)
-             else so = so0 /\ st_heap st' = st_heap st).
-Proof. exact @tie_decode_explicit. Qed.
-Print Assumptions C09_code_tie_api_decode_explicit.
